@@ -2,9 +2,26 @@
   Property C20 - extension file: theorems of this property that are proved in layers which themselves import
   Sipsp/Properties/C20.lean (message-level compositions, audit lemmas). Same namespace as the main file; the check
   audits both files together.
+
+  IPv6 (`Sipsp.Proofs.IP6Spec`; NO listed property asks for it — C20 is about IPv4, C04 already gives panic-freedom —, this
+  extends the proved behaviour of the model): `ip6_master_sound` / `ip6_master_complete`: for every buffer and start
+  position IP6Prefix reads a well-formed scanner text `g` (groups of 1–4 hex digits, at most one "::", at most 7 colons
+  without it and 8 with it) up to a byte where it cannot go on, and its whole result (accepted?, offset, verdict, the
+  eight 16-bit words, no panic) is the one a ten-row decision table prescribes — and conversely for every such text;
+  `ip6_accepts_iff`, `ip6_addr_accepted`, `ip6_bracketed_accepted`: exactly which texts are accepted, with value, length
+  and verdict (Ok = end of input, MoreValues = a byte follows `]` / a fifth hex digit, BadChar = another byte, MoreBytes
+  = `[`addr at the end of input); `ip6_reject_*`: every rejection with its offset; `ip6_contains_*`: ContainsIP6 reports a
+  span iff IP6Prefix accepts at one of the positions it tries (the up-to-5 bytes before each colon), the first such.
+  OBSERVED while proving (true of the Go code, reproduced; outside every listed property, so recorded, not repaired):
+  an address with "::" and 8 colons that ends in a group and is followed by a ninth colon is accepted with its last group
+  missing (`::2:3:4:5:6:7:8:` → 0:0:2:3:4:5:6:7; `ip6_value_cut_eq` proves the value right in all other cases); a single
+  leading colon (`:1:2:3:4:5:6:7`), a trailing colon after the "::" part (`1::2:`) and `[::1` without the closing bracket
+  are accepted; "::" may stand for zero groups (`1:2:3:4:5:6:7::8`); ContainsIP6 never tries a position at or after the
+  first colon of a run, so a text STARTING with `::1` reports no address.
 -/
 import Sipsp.Properties.C20
 import Sipsp.Proofs.AuditExamples
+import Sipsp.Proofs.IP6Spec
 
 namespace Sipsp.C20
 open Sipsp
@@ -16,5 +33,78 @@ theorem ip4prefix_size : type_of% @Sipsp.ae_ip4Prefix_pos_size := @Sipsp.ae_ip4P
 
 /-- **C20**: a positive ContainsIP4 returns an address array of exactly 4 entries -/
 theorem containsip4_size : type_of% @Sipsp.ae_containsIP4_size := @Sipsp.ae_containsIP4_size
+
+/-! ### IPv6 (beyond the listed properties): what IP6Prefix / ContainsIP6 accept, with which value, verdict and offset — sound and complete against a grammar of the text as the code reads it (proved in `Sipsp.Proofs.IP6Spec`) -/
+
+/-- **characterisation of IP6Prefix (soundness)**: the scanner reads a text `g` from the start position up to a position
+    where it stops, and the result is the one `I6Out` prescribes for that position and `g` -/
+theorem ip6_master_sound : type_of% @Sipsp.i6_prefixAt_char := @Sipsp.i6_prefixAt_char
+
+/-- **completeness of IP6Prefix**: whenever the bytes from the start position up to `o` are the text of some `g` of
+    the grammar and the scanner cannot go on at `o`, the result is the one `I6Out` prescribes for `o`, `g` -/
+theorem ip6_master_complete : type_of% @Sipsp.i6_prefixAt_complete := @Sipsp.i6_prefixAt_complete
+
+/-- **soundness of IP6Prefix**: an accepting result comes with a complete address text `g` read from the start
+    position (after the opening bracket, if any) up to the position where the scanner stopped; offset, verdict
+    and value are those of `I6AccRes` -/
+theorem ip6_accept_sound : type_of% @Sipsp.i6_prefixAt_sound := @Sipsp.i6_prefixAt_sound
+
+/-- **IP6Prefix accepts exactly** the texts that begin (after an opening bracket that is followed by at least one byte)
+    with a complete address text after which the scanner stops without rejecting, and which — inside brackets — is
+    followed by the closing bracket or the end of the input -/
+theorem ip6_accepts_iff : type_of% @Sipsp.i6_prefixAt_accepts_iff := @Sipsp.i6_prefixAt_accepts_iff
+
+/-- **completeness for the usual notation**: an address followed by the end of the input is accepted with verdict Ok,
+    followed by a byte that is neither a hex digit nor a colon with verdict BadChar; the offset is the length of the
+    address and the words are its value -/
+theorem ip6_addr_accepted : type_of% @Sipsp.i6_prefixAt_addr := @Sipsp.i6_prefixAt_addr
+
+/-- **addresses in brackets**: `[` address `]` is accepted, the offset is past the closing bracket and the verdict
+    is Ok at the end of the input, MoreValues when a byte follows; `[` address at the end of the input (closing
+    bracket missing) is ALSO accepted, with verdict MoreBytes and the offset at the end -/
+theorem ip6_bracketed_accepted : type_of% @Sipsp.i6_prefixAt_bracketed := @Sipsp.i6_prefixAt_bracketed
+
+/-- IP6Prefix never gives the "Go would panic" indication (also proved, differently, in `SafeRest`) -/
+theorem ip6_never_panics : type_of% @Sipsp.i6_prefixAt_nopanic := @Sipsp.i6_prefixAt_nopanic
+
+/-- every address of the usual notation is a complete text of the scanner's grammar, with the same value, without
+    a leading or trailing single colon -/
+theorem ip6_notation_to_scanner : type_of% @Sipsp.I6Addr.toG := @Sipsp.I6Addr.toG
+
+/-- conversely: a complete text of the scanner's grammar that has neither a leading nor a trailing single colon is an
+    address of the usual notation, with the same value. So the texts accepted beyond the usual notation are exactly
+    those with a single colon in front (read as an empty first group of value 0) or a single colon at the end of the
+    part after "::" (ignored). -/
+theorem ip6_scanner_to_notation : type_of% @Sipsp.I6G.toAddr := @Sipsp.I6G.toAddr
+
+theorem ip6_contains_sound : type_of% @Sipsp.i6_contains_sound := @Sipsp.i6_contains_sound
+
+theorem ip6_contains_none : type_of% @Sipsp.i6_contains_none := @Sipsp.i6_contains_none
+
+theorem ip6_contains_first : type_of% @Sipsp.i6_try_some := @Sipsp.i6_try_some
+
+theorem ip6_reject_eof : type_of% @Sipsp.i6_prefixAt_eof := @Sipsp.i6_prefixAt_eof
+
+/-- **rejections at a colon, with the returned offset**: a third colon in a row or a second "::" — Bad, offset of that
+    colon; a colon after the maximal number of colons (7 without "::", 8 with it) — the address ends there: BadChar,
+    or Bad inside brackets -/
+theorem ip6_reject_colon : type_of% @Sipsp.i6_prefixAt_colon := @Sipsp.i6_prefixAt_colon
+
+/-- **a group of more than four digits**: after a complete address MoreValues with the offset of the fifth digit (Bad
+    inside brackets); inside an address Bad -/
+theorem ip6_reject_hex : type_of% @Sipsp.i6_prefixAt_hex := @Sipsp.i6_prefixAt_hex
+
+/-- the closing bracket -/
+theorem ip6_reject_close : type_of% @Sipsp.i6_prefixAt_close := @Sipsp.i6_prefixAt_close
+
+/-- **any other byte** (in particular an unbalanced bracket: a bracketed address followed by something else than `]`,
+    verdict Bad; a `]` without `[` is just such a byte, verdict BadChar) -/
+theorem ip6_reject_other : type_of% @Sipsp.i6_prefixAt_other := @Sipsp.i6_prefixAt_other
+
+/-- when the group being read is empty or there is no "::", the value reported at a surplus colon is the right one -/
+theorem ip6_value_cut_eq : type_of% @Sipsp.I6G.valueCut_eq := @Sipsp.I6G.valueCut_eq
+
+/-- the value of a complete address: eight words, each below 2^16 -/
+theorem ip6_value_words : type_of% @Sipsp.I6G.value_words := @Sipsp.I6G.value_words
 
 end Sipsp.C20
